@@ -211,7 +211,13 @@ FREE_T = {"pre": 0, "lo": 1, "hi": 1, "free": True}
 FREE_L = {"lead": 0, "pos": "only", "depth": 0, "decor": 0}
 
 
-def perturb(text: str, mode: str) -> str:
+UNICODE_NOTE = "r\u00e9sum\u00e9 \u2615 \u0e44\u0e17\u0e22\u0e25\u0e34\u0e19\u0e15\u0e4c \u2014 \u65e5\u672c\u8a9e\u306e\u30b3\u30e1\u30f3\u30c8 \U0001F40D"
+
+
+def perturb(text: str, mode: str, ext: str = "py") -> str:
+    if mode == "unicode":
+        # a leading comment of multi-byte characters: character offsets and byte offsets part ways below it
+        return ("# " if ext == "py" else "// ") + UNICODE_NOTE + "\n" + text
     if mode == "crlf":
         return text.replace("\n", "\r\n")
     if mode == "nofinal":
@@ -271,7 +277,7 @@ def run(chk) -> None:
                 "(864 layouts emitted by TLC) x 24 construct templates (13 Python, 5 TypeScript, 6 Rust: nesting, srp, "
                 "stateless-class, method-property, magic-numbers, print, conditional-verbose, string-concat, "
                 "regex-in-loop, lbyl, pipeline, cqs, lazy-ignores, unwrap, clone, blocking); corpus = every catalogued "
-                "documented example as is, with CRLF, without final newline and with two leading blank lines, and DRY "
+                "documented example as is, with CRLF, without final newline, with two leading blank lines and below a leading comment of multi-byte characters, and DRY "
                 "pairs holding the same code in six different layouts in both file orders")
     chk.assumptions += [
         "column within the line is measured in UTF-8 bytes of the line without its terminator (ast and tree-sitter count bytes)",
@@ -324,19 +330,19 @@ def run(chk) -> None:
     cjobs, cmeta = [], []
     fences = docex.all_fences()
     cat = docex.load_catalog()
-    modes = ["plain", "crlf", "nofinal", "lead"]
+    modes = ["plain", "crlf", "nofinal", "lead", "unicode"]
     for ex in cat:
         f = fences.get((ex["doc"], ex["sha"]))
         if f is None or ex["kind"] in ("method", "fnbody"):
             continue
         text = docex.example_text(f, ex)
         ext = docex.EXT[f["lang"]]
-        use = modes if not quick else [modes[(ex["ordinal"] + k) % 4] for k in range(2)]
+        use = modes if not quick else [modes[(ex["ordinal"] + k) % 5] for k in range(3)]
         for mode in use:
             if ex["kind"] == "split":
-                files = [(nm, perturb(t, mode)) for nm, t in docex.split_parts(text)]
+                files = [(nm, perturb(t, mode, os.path.splitext(nm)[1].lstrip(".") or "py")) for nm, t in docex.split_parts(text)]
             else:
-                files = [(f"src/m_example.{ext}", perturb(text, mode))]
+                files = [(f"src/m_example.{ext}", perturb(text, mode, ext))]
                 if ex["doc"] in docex.PAIR_DOCS:
                     files.append((f"src/b_twin.{ext}", perturb(text, "plain")))
             n += 1
